@@ -61,8 +61,10 @@ def write(items, missing_alt=".", missing_ins="?", missing_chg="?", label_auth="
     for it in items:
         if isinstance(it, str):
             if it.startswith("MODEL"):
-                if seen_model:
-                    model += 1
+                try:
+                    model = int(it[5:].strip())      # the model number written in the PDB encoding
+                except ValueError:
+                    model = model + 1 if seen_model else model
                 seen_model = True
             continue
         a = it
